@@ -91,6 +91,13 @@ def _expand(payload, sub):
 
 
 def _retest_chain(payload, sub):
+    # the chain without the refused link must be valid (and have resources); only then is the refusal judged
+    try:
+        d = PL.describe({'tables': payload['tables'], 'steps': payload['steps'][:-1], 'source_kinds': payload.get('source_kinds')}, {'calls': {}})
+    except Exception:  # noqa
+        return 'prefix-invalid'
+    if not d.get('resources'):
+        return 'no-resources'
     PL.describe({'tables': payload['tables'], 'steps': payload['steps'], 'source_kinds': payload.get('source_kinds')}, {'calls': {}})
     return True
 
